@@ -680,4 +680,17 @@ theorem registerAll_build (ds : List RouteDef) : ∀ (rt : RouterM) (rt' : Route
     · cases h
 
 
+theorem firstMatch_some' {rs : List RouteM} {q : Bytes} {us : Bool} {r : RouteM} {ps : Params}
+    (h : firstMatch rs q us = some (r, ps)) : r ∈ rs := by
+  unfold firstMatch at h
+  obtain ⟨r', hr', hg⟩ := List.exists_of_findSome?_eq_some h
+  split at hg
+  · cases hg
+  · cases hm : routeMatch r' q with
+    | none => rw [hm] at hg; simp at hg
+    | some ps' =>
+      rw [hm] at hg; simp at hg
+      obtain ⟨rfl, rfl⟩ := hg
+      exact hr'
+
 end Rux
